@@ -461,7 +461,7 @@ func GateDeep(root *ssa.Function, effects []ssa.Instruction, pass ...Lit) GateRe
 			// "filtering producer": the effect uses a value handed out by a helper that
 			// returns nothing (nil) on the paths to be dropped, and the effect is reached
 			// only when that value is not nil — then the gate is the helper's
-			if viaProducer(f, by[f], pass, &res) {
+			if viaProducer(f, by[f], pass, &res) || viaPredicate(f, by[f], pass, &res) {
 				continue
 			}
 			if f == root || depth > 4 {
@@ -889,4 +889,84 @@ func viaProducer(f *ssa.Function, effs []ssa.Instruction, pass []Lit, res *GateR
 		}
 	}
 	return len(effs) > 0
+}
+
+// viaPredicate: the effects are reachable only on the edge on which a boolean helper of
+// the repository returned true (resp. false), and inside that helper every return of
+// true (resp. false, or of a non-constant value) is guarded by the pass literals — the
+// gate was moved into a predicate such as entry.satisfiedBy(data).
+func viaPredicate(f *ssa.Function, effs []ssa.Instruction, pass []Lit, res *GateResult) bool {
+	target := map[*ssa.BasicBlock]bool{}
+	for _, e := range effs {
+		target[e.Block()] = true
+	}
+	for _, b := range f.Blocks {
+		if len(b.Instrs) == 0 {
+			continue
+		}
+		iff, ok := b.Instrs[len(b.Instrs)-1].(*ssa.If)
+		if !ok {
+			continue
+		}
+		cond, neg := StripNot(iff.Cond)
+		cl, ok := Strip(cond).(*ssa.Call)
+		if !ok {
+			continue
+		}
+		h := cl.Call.StaticCallee()
+		if h == nil || !helperOK(h) || h == f || h.Signature.Results().Len() != 1 {
+			continue
+		}
+		if bt, ok := h.Signature.Results().At(0).Type().Underlying().(*types.Basic); !ok || bt.Kind() != types.Bool {
+			continue
+		}
+		for _, want := range []bool{true, false} {
+			// the edge taken when the helper returned `want`
+			idx := 0
+			if want == neg {
+				idx = 1
+			}
+			cut := map[Edge]bool{{b, b.Succs[idx]}: true}
+			if ReachAvoiding(f, f.Blocks[0], target, cut) != nil {
+				continue // the effect does not depend on this outcome
+			}
+			var rets []ssa.Instruction
+			Instrs(h, func(in ssa.Instruction) {
+				r, ok := in.(*ssa.Return)
+				if !ok || len(r.Results) != 1 || in.Block() == h.Recover {
+					return
+				}
+				if k, isC := ConstBool(r.Results[0]); isC && k != want {
+					return
+				}
+				rets = append(rets, r)
+			})
+			if len(rets) == 0 {
+				continue
+			}
+			var bound []*ssa.Parameter
+			for i, p := range h.Params {
+				if i < len(cl.Call.Args) {
+					if _, dup := paramBind[p]; !dup {
+						paramBind[p] = cl.Call.Args[i]
+						bound = append(bound, p)
+					}
+				}
+			}
+			r2 := Gate(h, rets, pass...)
+			for _, p := range bound {
+				delete(paramBind, p)
+			}
+			if r2.OK {
+				res.PassEdges += r2.PassEdges
+				for i := range r2.PerLit {
+					if i < len(res.PerLit) {
+						res.PerLit[i] += r2.PerLit[i]
+					}
+				}
+				return true
+			}
+		}
+	}
+	return false
 }
